@@ -960,3 +960,82 @@ def r_unsigned_sub(cx):
                   "(panic in debug builds, a wrapped value of about 1.8e19 otherwise)" % (name, k, lb), cx.where(s.get("span")))
     cx.ob("R-UNSIGNED-SUB", "scan", fns > 0, "%d operator functions scanned, %d subtraction(s) from natural parameters" % (fns, n), "src/inner_op")
     cx.count("R-UNSIGNED-SUB", "functions_scanned", fns)
+
+
+# ---------------------------------------------------------------------------------------------------------------------
+# R-USER-I64-ARITH (C09, C12): arithmetic on the user's roll arguments cannot overflow
+
+def _sign_of(f, bb, t, depth=0):
+    """'nonneg' | 'neg' | None for the signed integer term t at block bb"""
+    t = mir.strip_refs(t)
+    if depth > 8:
+        return None
+    if t[0] == "const" and isinstance(t[2], int):
+        return "nonneg" if t[2] >= 0 else "neg"
+    if t[0] == "call" and isinstance(t[1], str) and t[1].rsplit("::", 1)[-1] in ("abs", "unsigned_abs", "len", "count"):
+        return "nonneg"
+    if t[0] == "phi":
+        ss = {_sign_of(f, bb, o, depth + 1) for o in t[2]}
+        return ss.pop() if len(ss) == 1 else None
+    for g in sorted(f.reachable()):
+        sw = f.term(g)
+        if sw["k"] != "switch" or g == bb or not f.dominates(g, bb):
+            continue
+        c = f.operand(sw["discr"], f.end_point(g))
+        if c[0] != "bin" or c[1] not in ("Lt", "Le", "Gt", "Ge"):
+            continue
+        a, b, op = mir.strip_refs(c[2]), mir.strip_refs(c[3]), c[1]
+        if b == t and is_const_int(a):
+            a, b = b, a
+            op = {"Lt": "Gt", "Le": "Ge", "Gt": "Lt", "Ge": "Le"}[op]
+        if a != t or not is_const_int(b):
+            continue
+        k = b[2]
+        false_bb = None
+        for val, tb in sw["targets"]:
+            if val == 0:
+                false_bb = tb
+        true_bb = sw["otherwise"]
+
+        def on(side):
+            return side is not None and (f.dominates(side, bb) and side != bb or side == bb and _single_pred(f, bb))
+        if op == "Lt" and k <= 0 and on(true_bb) or op == "Le" and k < 0 and on(true_bb):
+            return "neg"
+        if op == "Ge" and k <= 0 and on(false_bb) or op == "Gt" and k < 0 and on(false_bb):
+            return "neg"
+        if op == "Ge" and k >= 0 and on(true_bb) or op == "Gt" and k >= -1 and on(true_bb):
+            return "nonneg"
+        if op == "Lt" and k >= 0 and on(false_bb) or op == "Le" and k >= -1 and on(false_bb):
+            return "nonneg"
+    return None
+
+
+@rule("R-USER-I64-ARITH", ["C09", "C12"])
+def r_user_i64_arith(cx):
+    """The arguments of `stack roll=m,n` / `unroll=m,n` reach the stack interpreter as i64 values the user chose (any
+    f64 saturates into the i64 range). Every plain `+` / `-` on them (a checked operation in a debug build: overflow is
+    a panic) is overflow-free by the signs of its operands - a difference of two values of the same known sign, a sum of
+    two of opposite known signs - or it is written with saturating / checked / wrapping arithmetic."""
+    n = 0
+    for name in sorted(cx.f.lib["fns"]):
+        if not name.startswith("inner_op::stack::") or "::tests" in name:
+            continue
+        f = cx.f.fn(name)
+        for bb, i, s in f.all_stmts():
+            if not (s["k"] == "assign" and s["rv"]["k"] == "bin"):
+                continue
+            op = str(s["rv"].get("op", "")).replace("WithOverflow", "")
+            if op not in ("Add", "Sub") or "i64" not in str(f.local_ty(s["place"]["l"])):
+                continue
+            v = f.rvalue(s["rv"], (bb, i))
+            if v[0] != "bin":
+                continue
+            n += 1
+            sa, sb = _sign_of(f, bb, v[2]), _sign_of(f, bb, v[3])
+            ok = sa is not None and sb is not None and ((op == "Sub" and sa == sb) or (op == "Add" and sa != sb))
+            cx.ob("R-USER-I64-ARITH", "%s/%s%d" % (name, op.lower(), n - 1), ok,
+                  "%s of a %s and a %s value cannot overflow" % (op, sa, sb) if ok else
+                  "%s computes a plain i64 `%s` of two user-controlled roll arguments whose signs are not known: "
+                  "`stack unroll=1e19,-1` overflows (a panic in a debug build)" % (name, "-" if op == "Sub" else "+"),
+                  cx.where(s.get("span")))
+    cx.count("R-USER-I64-ARITH", "i64_operations", n)
